@@ -5,9 +5,6 @@ import MirProofs.Props.C05
 import MirProofs.Props.C05_HK
 import MirProofs.Props.C04_Onset
 import MirProofs.Props.C04_Boundary
-import MirProofs.Props.C07_Onset
-import MirProofs.Props.C07_Beat
-import MirProofs.Props.C07_Boundary
 /-!
   C04 (regenerated) — the event-metric glue AS TRANSLATED from the source on every run (`lean/MirGen/EvGlue.lean`,
   harness/translate/evglue.py): `util._fast_hit_windows`, `util.match_events` (for `distance=None`), `onset.f_measure`,
@@ -240,30 +237,120 @@ theorem detection_eq_model (ri ei : List (Rat × Rat)) (w b : Rat) (t : Bool) :
 theorem detection_defaults (ri ei : List (Rat × Rat)) :
     Mir.Gen.segment.detection ri ei = Boundary.detection ri ei (1 / 2) 1 false := detection_eq_model ri ei _ _ _
 
-/-! ### the C05 / C04 / C07 headline statements on the translated definitions -/
+/-! ### `segment.deviation` -/
 
-/-- **C05 (`fast_hit_windows_is_the_tolerance_predicate`) on the code as translated**: the translated
-    `_fast_hit_windows` returns exactly the index pairs with `est_j - w ≤ ref_i ≤ est_j + w`, for every (unsorted,
-    duplicated, empty) reference list, every estimate list and every window (a negative window produces nothing) -/
-theorem gen_fast_hit_windows_spec (ref est : List Rat) (w : Rat) :
-    ∃ hr he, Mir.Gen.util._fast_hit_windows ref est w = .ok (hr, he) ∧ hr.length = he.length ∧
-      ∀ i j, (i, j) ∈ List.zip hr he ↔ ∃ r e, ref[i]? = some r ∧ est[j]? = some e ∧ e - w ≤ r ∧ r ≤ e + w := by
-  refine ⟨_, _, _fast_hit_windows_eq_model ref est w, by simp, fun i j => ?_⟩
-  rw [zip_fst_snd]
-  exact fastHitWindows_spec ref est w i j
+/-- **`segment.deviation` as translated = the hand model** (`Boundary.deviation`), for ALL interval lists and both values
+    of `trim`: `(nan, nan)` when a side has no boundaries, else the medians of the row / column minima of
+    `|ref_i − est_j|` (no ValueError path: every reduced axis is non-empty) -/
+theorem deviation_eq_model (ri ei : List (Rat × Rat)) (t : Bool) :
+    Mir.Gen.segment.deviation ri ei t = Boundary.deviation ri ei t := by
+  unfold Mir.Gen.segment.deviation Boundary.deviation PyEG.validate_boundary Boundary.boundaries
+    PyEG.intervals_to_boundaries
+  cases hv : Boundary.validateBoundary ri ei t with
+  | error x => rfl
+  | ok u =>
+    simp only [ok_bind, trim_eq, PyM.len, decide_eq_true_eq, Bool.or_eq_true, List.length_eq_zero_iff]
+    generalize Boundary.trimB t (Boundary.intervalsToBoundaries ri) = r
+    generalize Boundary.trimB t (Boundary.intervalsToBoundaries ei) = e
+    cases r with
+    | nil => rfl
+    | cons r0 rs =>
+      cases e with
+      | nil => simp
+      | cons e0 es =>
+        have hne : ¬ ((r0 :: rs) = [] ∨ (e0 :: es) = []) := by simp
+        rw [if_neg hne]
+        have h1 := PyEG.minAxis1_map (fun x y => MiscStats.absQ (x - y)) (r0 :: rs) e0 es
+        have hc := PyEG.columns_outer (fun x y => MiscStats.absQ (x - y)) (r0 :: rs) (e0 :: es)
+        have h0 := PyEG.minAxis1_map (fun y x => MiscStats.absQ (x - y)) (e0 :: es) r0 rs
+        simp only [PyEG.minAxis0, PyEG.absOuter, hc, h0, h1, ok_bind, PyEG.median]
+        try rfl
 
-/-- **C05 on the translated `match_events`**: it returns a valid one-to-one pairing inside the hit relation, of
-    MAXIMUM size (no valid pairing is larger), and its size is the hit count every event metric divides -/
-theorem gen_match_events_valid_maximum (ref est : List Rat) (w : Rat) :
-    ∃ M, Mir.Gen.util.match_events ref est w = .ok M ∧ ValidMatching (fastHitWindows ref est w) M ∧
-      (∀ M', ValidMatching (fastHitWindows ref est w) M' → M'.length ≤ M.length) ∧
-      M.length = hitCount (withinWindow w) ref est := by
-  refine ⟨_, match_events_eq_model ref est w, ?_, ?_, matchingOf_length ref est w⟩
-  · exact HK.validMatching_perm (HK.hkMatch_buildGraph_valid _) (HK.sortPairs_perm _)
-  · intro M' hM'
-    unfold matchingOf
-    rw [(HK.sortPairs_perm _).length_eq]
-    exact (Mir.C05.HK.hk_on_hit_list _).2.2 M' hM'
+theorem deviation_default (ri ei : List (Rat × Rat)) :
+    Mir.Gen.segment.deviation ri ei = Boundary.deviation ri ei false := deviation_eq_model ri ei _
+
+/-! ### `tempo.validate`, `tempo.detection` -/
+
+/-- **`tempo.validate` as translated = the hand model** (`Tempo.validate`; `validate_tempi` is an extern) -/
+theorem tempo_validate_eq_model (r : List Rat) (w : Rat) (e : List Rat) :
+    Mir.Gen.tempo.validate r w e = Tempo.validate r w e := by
+  unfold Mir.Gen.tempo.validate Tempo.validate PyEG.validate_tempi
+  cases Tempo.validateTempi r true with
+  | error x => rfl
+  | ok u =>
+    cases Tempo.validateTempi e false with
+    | error x => rfl
+    | ok u' =>
+      simp only [ok_bind, Bool.or_eq_true, decide_eq_true_eq, gt_iff_lt]
+      by_cases h : w < 0 ∨ 1 < w
+      · rw [if_pos h]; simp only [h, if_true]
+      · rw [if_neg h]; simp only [h, if_false]; rfl
+
+theorem validateTempi_len {t : List Rat} {b : Bool} {u : Unit} (h : Tempo.validateTempi t b = .ok u) :
+    ∃ a c, t = [a, c] := by
+  unfold Tempo.validateTempi at h
+  by_cases hl : t.length ≠ 2
+  · rw [if_pos hl] at h; cases h
+  · have : t.length = 2 := not_not.1 hl
+    match t, this with
+    | [a, c], _ => exact ⟨a, c, rfl⟩
+
+theorem tempo_validate_shapes {r e : List Rat} {w : Rat} {u : Unit} (h : Tempo.validate r w e = .ok u) :
+    ∃ r0 r1 e0 e1, r = [r0, r1] ∧ e = [e0, e1] := by
+  unfold Tempo.validate at h
+  cases h1 : Tempo.validateTempi r true with
+  | error x => rw [h1] at h; cases h
+  | ok u1 =>
+    cases h2 : Tempo.validateTempi e false with
+    | error x => rw [h1, h2] at h; cases h
+    | ok u2 =>
+      obtain ⟨r0, r1, hr⟩ := validateTempi_len h1
+      obtain ⟨e0, e1, he⟩ := validateTempi_len h2
+      exact ⟨r0, r1, e0, e1, hr, he⟩
+
+/-- the relative error of one reference tempo against the two estimates, as the translated NumPy expression -/
+theorem npMin_two (r e0 e1 : Rat) (hr : r ≠ 0) :
+    PyEG.npMin (PyEG.divVecNp (PyEG.absV (PyEG.rsubScalar r [e0, e1])) r) = .ok (.val (Tempo.relErr r e0 e1)) := by
+  simp [PyEG.npMin, PyEG.divVecNp, PyEG.absV, PyEG.rsubScalar, Segment.npDiv, hr, PyEG.numMin2, Tempo.relErr]
+
+/-- one iteration of the translated loop stores the hand model's `hit` -/
+theorem tempo_step (e0 e1 tol r : Rat) (i : Nat) (rest : List Rat) (hits : List Bool) (hi : i < hits.length) :
+    Mir.Gen.tempo.detection_loop1 [e0, e1] tol i (r :: rest) hits =
+      Mir.Gen.tempo.detection_loop1 [e0, e1] tol (i + 1) rest
+        (if 0 < r then hits.set i (Tempo.hit r e0 e1 tol) else hits) := by
+  rw [Mir.Gen.tempo.detection_loop1]
+  simp only [decide_eq_true_eq, gt_iff_lt]
+  by_cases h : 0 < r
+  · rw [if_pos h, if_pos h, npMin_two r e0 e1 (ne_of_gt h)]
+    simp only [ok_bind, PyEG.setItemB, if_pos hi, PyEG.numLe, Tempo.hit, if_pos h]
+  · rw [if_neg h, if_neg h]
+
+/-- **`tempo.detection` as translated = the hand model** (`Tempo.detection`), for ALL inputs: validation (the two
+    `validate_tempi` calls, the weight range), the `ValueError` of a tolerance outside [0, 1], the per-reference-tempo hit
+    `min |ref − est| / ref <= tol` (skipped for a zero reference tempo), the weighted P-score and the two flags -/
+theorem tempo_detection_eq_model (r : List Rat) (w : Rat) (e : List Rat) (tol : Rat) :
+    Mir.Gen.tempo.detection r w e tol = Tempo.detection r w e tol := by
+  unfold Mir.Gen.tempo.detection Tempo.detection
+  rw [tempo_validate_eq_model]
+  cases hv : Tempo.validate r w e with
+  | error x => rfl
+  | ok u =>
+    obtain ⟨r0, r1, e0, e1, rfl, rfl⟩ := tempo_validate_shapes hv
+    simp only [ok_bind, Bool.or_eq_true, decide_eq_true_eq, gt_iff_lt]
+    by_cases ht : tol < 0 ∨ 1 < tol
+    · rw [if_pos ht]; simp only [ht, if_true]
+    · rw [if_neg ht]
+      simp only [ht, if_false]
+      rw [tempo_step e0 e1 tol r0 0 [r1] [false, false] (by simp), tempo_step e0 e1 tol r1 1 []  _ (by split <;> simp)]
+      rw [Mir.Gen.tempo.detection_loop1]
+      by_cases h0 : 0 < r0 <;> by_cases h1 : 0 < r1 <;>
+        simp [h0, h1, Tempo.hit, PyMP.listGet, PyEG.maxBools, PyEG.minBools, PyEG.b2r, Tempo.b2r, ok_bind] <;>
+        first | rfl | (simp only [pure, Except.pure])
+
+theorem tempo_detection_default (r : List Rat) (w : Rat) (e : List Rat) :
+    Mir.Gen.tempo.detection r w e = Tempo.detection r w e (2 / 25) := tempo_detection_eq_model r w e _
+
+/-! ### the C04 headline statements on the translated definitions (C05: `Props/C05_GenGlue.lean`, C07: `Props/C07_GenGlue.lean`) -/
 
 /-- **C04 (`f_measure_is_matching_score`) on the translated `onset.f_measure`**: on valid non-empty input it returns
     `(F, P, R)` with `P = k / |est|`, `R = k / |ref|`, `k` the size of a maximum matching of `|r - e| ≤ w` -/
@@ -282,21 +369,6 @@ theorem gen_onset_f_measure_empty (ref est : List Rat) (w : Rat) (hv : Onset.val
   rw [onset_f_measure_eq_model]
   exact Mir.C04.Onset.f_measure_empty ref est w hv h
 
-/-- **C07 on the translated `onset.f_measure`**: widening the window never lowers F, P or R -/
-theorem gen_onset_f_measure_window_mono (ref est : List Rat) (w w' : Rat) (hw : w ≤ w') (s s' : Rat × Rat × Rat)
-    (h : Mir.Gen.onset.f_measure ref est w = .ok s) (h' : Mir.Gen.onset.f_measure ref est w' = .ok s') :
-    s.1 ≤ s'.1 ∧ s.2.1 ≤ s'.2.1 ∧ s.2.2 ≤ s'.2.2 := by
-  rw [onset_f_measure_eq_model] at h h'
-  exact Mir.C07.Onset.f_measure_window_mono ref est w w' hw s s' h h'
-
-/-- **C07 on the translated `beat.f_measure`**: widening the threshold never lowers the F-measure -/
-theorem gen_beat_f_measure_window_mono (ref est : List Rat) (thr thr' v : Rat) (h : thr ≤ thr')
-    (hv : Mir.Gen.beat.f_measure ref est thr = .ok v) :
-    ∃ v', Mir.Gen.beat.f_measure ref est thr' = .ok v' ∧ v ≤ v' := by
-  rw [beat_f_measure_eq_model] at hv
-  rw [beat_f_measure_eq_model]
-  exact Mir.C07.Beat.f_measure_window_mono ref est thr thr' v h hv
-
 /-- **C04 (`detection_is_matching_score`) on the translated `segment.detection`** -/
 theorem gen_detection_is_matching_score (ref est : List (Rat × Rat)) (w beta : Rat) (trim : Bool)
     (hv : Boundary.validateBoundary ref est trim = .ok ()) (hr : Boundary.boundaries ref trim ≠ [])
@@ -310,26 +382,7 @@ theorem gen_detection_is_matching_score (ref est : List (Rat × Rat)) (w beta : 
   obtain ⟨k, hk, _, h⟩ := Mir.C04.Boundary.detection_is_matching_score ref est w beta trim hv hr he
   exact ⟨k, hk, h⟩
 
-/-- **C07 on the translated `segment.detection`**: widening the window never lowers P, R or F -/
-theorem gen_detection_window_mono (ref est : List (Rat × Rat)) (w w' beta : Rat) (trim : Bool) (hw : w ≤ w')
-    (s s' : Rat × Rat × Rat) (h : Mir.Gen.segment.detection ref est w beta trim = .ok s)
-    (h' : Mir.Gen.segment.detection ref est w' beta trim = .ok s') :
-    s.1 ≤ s'.1 ∧ s.2.1 ≤ s'.2.1 ∧ s.2.2 ≤ s'.2.2 := by
-  rw [detection_eq_model] at h h'
-  exact Mir.C07.Boundary.detection_window_mono ref est w w' beta trim hw s s' h h'
-
 /-! ### non-vacuity -/
-
-/-- unsorted reference with a duplicated value: both copies of `1` hit the estimate `1`, `3` does not -/
-example : ∃ hr he, Mir.Gen.util._fast_hit_windows [3, 1, 1, 2] [1, 5 / 2] (1 / 2) = .ok (hr, he) ∧
-    (1, 0) ∈ List.zip hr he ∧ (2, 0) ∈ List.zip hr he ∧ (0, 0) ∉ List.zip hr he := by
-  obtain ⟨hr, he, h, _, hs⟩ := gen_fast_hit_windows_spec [3, 1, 1, 2] [1, 5 / 2] (1 / 2)
-  refine ⟨hr, he, h, (hs 1 0).2 ⟨1, 1, rfl, rfl, by norm_num, by norm_num⟩,
-    (hs 2 0).2 ⟨1, 1, rfl, rfl, by norm_num, by norm_num⟩, fun hc => ?_⟩
-  obtain ⟨r, e, h1, h2, h3, h4⟩ := (hs 0 0).1 hc
-  simp at h1 h2
-  subst h1 h2
-  norm_num at h4
 
 /-- two onsets, one estimate inside the window of the first: F = 2/3, P = 1, R = 1/2 -/
 example : ∃ k : Nat, Mir.Gen.onset.f_measure [1, 2] [1] (1 / 20) =
